@@ -6,8 +6,11 @@ CONSTANTS
   Cumulative = @CUMULATIVE@
   FixD1 = @FIXD1@
   MaxSteps = @MAXSTEPS@
+  NoSum = @NOSUM@
+  NoMinMax = @NOMINMAX@
+  OutVariant = "@VARIANT@"
 VIEW View
 ACTION_CONSTRAINT EmitEdge
-INVARIANTS ImplIsRef RefOK SizeBound
+INVARIANTS ImplIsRef RefOK SizeBound ReportIndep
 PROPERTIES ScaleMonotone
 CHECK_DEADLOCK FALSE
